@@ -18,7 +18,7 @@ Import ListNotations.
 Definition JBASE : N := 4294967296.
 
 (* a log tag: kind and numeric arguments (ocaml/C01/driver.ml prints them in the tool's format) *)
-Definition tag := (N * list N)%type.
+Notation tag := (N * list N)%type (only parsing).
 Definition K_ERR_OPEN : N := 1.      (* error:<pos>:<disk>:<file>: Open error at position <fpos>            args pos d name fpos *)
 Definition K_ERR_READ : N := 2.      (* error:<pos>:<disk>:<file>: Read error at position <fpos> *)
 Definition K_ERR_DATA : N := 3.      (* error:<pos>:<disk>:<file>: Data error at position <fpos> *)
